@@ -1532,11 +1532,45 @@ class CharStr:
             val = val * base + SymInt(d)
         return -val if neg else val
 
-    def encode(self, *a, **k):
+    def encode(self, encoding="utf-8", errors="strict"):
         s_ = self.concrete()
-        if s_ is None:
-            _unsupported("CharStr.encode with symbolic characters")
-        return s_.encode(*a, **k)
+        if s_ is not None:
+            return s_.encode(encoding, errors)
+        if encoding.lower().replace("_", "-") == "utf-16" and errors == "surrogatepass":
+            # modelled: the UTF-16 code units of the string (see _Utf16Units.decode)
+            return _Utf16Units(self.c)
+        _unsupported("CharStr.encode with symbolic characters")
+
+    # -- ordering (single characters compare by code point; longer strings lexicographically) --
+    def _order(self, o, strict, less):
+        oc = self._codes(o)
+        if oc is None:
+            return NotImplemented
+        a, b = (self.c, oc) if less else (oc, self.c)
+        # a < b (strict) / a <= b lexicographically
+        def lt(i):
+            if i >= len(a) or i >= len(b):
+                return z3.BoolVal(len(a) < len(b) if strict else len(a) <= len(b))
+            x, y = _as_int_term(a[i]), _as_int_term(b[i])
+            return z3.Or(x < y, z3.And(x == y, lt(i + 1)))
+        r = z3.simplify(lt(0))
+        if z3.is_true(r):
+            return True
+        if z3.is_false(r):
+            return False
+        return SymBool(r)
+
+    def __lt__(self, o):
+        return self._order(o, True, True)
+
+    def __le__(self, o):
+        return self._order(o, False, True)
+
+    def __gt__(self, o):
+        return self._order(o, True, False)
+
+    def __ge__(self, o):
+        return self._order(o, False, False)
 
     def __str__(self):
         s_ = self.concrete()
@@ -1554,6 +1588,74 @@ class CharStr:
         if s_ is None:
             _unsupported("os.fspath(CharStr)")
         return s_
+
+
+class _Utf16Units:
+    """result of CharStr.encode("utf-16", "surrogatepass"): the code units, kept as code points.
+    decode("utf-16", "replace") joins surrogate pairs and replaces lone surrogates by U+FFFD - the
+    round trip python performs on the real bytes (validated against the real codec on concrete
+    strings by symrun.validate_utf16_model)."""
+
+    def __init__(self, codes):
+        self.c = list(codes)
+
+    def decode(self, encoding="utf-8", errors="strict"):
+        if encoding.lower().replace("_", "-") != "utf-16" or errors != "replace":
+            _unsupported("decode of modelled UTF-16 units other than ('utf-16', 'replace')")
+        # characters above U+FFFF were encoded as two units: expand first
+        units = []
+        for ch in self.c:
+            if isinstance(ch, int):
+                if ch > 0xFFFF:
+                    v = ch - 0x10000
+                    units += [0xD800 + (v >> 10), 0xDC00 + (v & 0x3FF)]
+                else:
+                    units.append(ch)
+            else:
+                if _CUR.decide(_as_int_term(ch) > 0xFFFF):
+                    _unsupported("symbolic astral character in UTF-16 model")
+                units.append(ch)
+        out, i = [], 0
+
+        def in_range(ch, lo, hi):
+            if isinstance(ch, int):
+                return lo <= ch <= hi
+            t = _as_int_term(ch)
+            return _CUR.decide(z3.And(t >= lo, t <= hi))
+        while i < len(units):
+            ch = units[i]
+            if in_range(ch, 0xD800, 0xDBFF):
+                if i + 1 < len(units) and in_range(units[i + 1], 0xDC00, 0xDFFF):
+                    lo = units[i + 1]
+                    if isinstance(ch, int) and isinstance(lo, int):
+                        out.append(0x10000 + ((ch - 0xD800) << 10) + (lo - 0xDC00))
+                    else:
+                        out.append(SymInt(65536 + (_as_int_term(ch) - 0xD800) * 1024 + (_as_int_term(lo) - 0xDC00)))
+                    i += 2
+                    continue
+                out.append(0xFFFD)
+            elif in_range(ch, 0xDC00, 0xDFFF):
+                out.append(0xFFFD)
+            else:
+                out.append(ch)
+            i += 1
+        return CharStr(out)
+
+
+def validate_utf16_model():
+    """the modelled surrogatepass/replace round trip == python's on concrete strings"""
+    import itertools
+    alphabet = ["a", "\ud800", "\udbff", "\udc00", "\udfff", "\ue000", "\U0001f600"]
+    n = 0
+    for L in (0, 1, 2, 3):
+        for tup in itertools.product(alphabet, repeat=L):
+            s_ = "".join(tup)
+            real = s_.encode("utf-16", "surrogatepass").decode("utf-16", "replace")
+            got = _Utf16Units([ord(ch) for ch in s_]).decode("utf-16", "replace")
+            n += 1
+            if str(got) != real and [ord(x) for x in real] != [int(c) for c in got.c]:
+                raise AssertionError(f"utf-16 model differs on {s_!r}: {got.c} vs {[ord(x) for x in real]}")
+    return n
 
 
 class SymMap:
